@@ -59,6 +59,10 @@ def _has_unordered_input(v) -> bool:
     return False
 
 
+def _type_has_union(t) -> bool:
+    return any(n["k"] == "union" for n in model.twalk(t)) if isinstance(t, dict) else False
+
+
 def _type_has_set(t) -> bool:
     return any(n["k"] in model.SETLIKE for n in model.twalk(t)) if isinstance(t, dict) else False
 
@@ -363,9 +367,14 @@ class Session:
             for key in ("x", "v", "xs"):
                 if key in step and _has_unordered_input(step[key]):
                     unordered = True
-            if "t" in step and step["t"] is not None and _type_has_set(step["t"]):
+            if "t" in step and step["t"] is not None and "set" in self.kinds_of(step["t"]):
                 unordered = True
-        c = out.canon(unordered=unordered) if out is not None else ["fault"]
+        if unordered and out is not None and "union" in self.kinds_of(step.get("t")):
+            # first-acceptor unions over an unordered input: which member accepts (or whether any
+            # does) can depend on the set's iteration order, i.e. on the hash seed
+            c = ["hash-relative"]
+        else:
+            c = out.canon(unordered=unordered) if out is not None else ["fault"]
         cj = core.jdump(c)
         self.chain.add(str(i), opd, cj)
         self.step_canons.append(core.digest(cj))
@@ -381,6 +390,41 @@ class Session:
             self.nontrivial.add(core.digest(opd + "|" + pre_sig))
         if pre_sig:
             self.state_sigs.add(core.digest(pre_sig))
+
+    def kinds_of(self, t) -> set:
+        """Coarse kinds ("union", "set") reachable from a type AST, following references
+        into the declarations of the world."""
+        if not isinstance(t, dict):
+            return set()
+        key = core.jdump(t)
+        cache = self.__dict__.setdefault("_kinds", {})
+        if key in cache:
+            return cache[key]
+        out: set = set()
+        seen: set = set()
+        todo = [t]
+        while todo:
+            cur = todo.pop()
+            for n in model.twalk(cur):
+                if n["k"] == "union":
+                    out.add("union")
+                elif n["k"] in model.SETLIKE:
+                    out.add("set")
+                elif n["k"] == "ref" and self.world is not None:
+                    rk = (n["m"], n["n"])
+                    if rk in seen:
+                        continue
+                    seen.add(rk)
+                    d = self.world.decls.get(rk)
+                    if d is None:
+                        continue
+                    if "t" in d and isinstance(d["t"], dict):
+                        todo.append(d["t"])
+                    for f in d.get("fields", ()):
+                        if isinstance(f.get("t"), dict):
+                            todo.append(f["t"])
+        cache[key] = out
+        return out
 
     # ------------------------------------------------------------------ cold reference
     def cold_start(self):
